@@ -11,6 +11,8 @@ fn main() {
         Some("lint-plain") => std::process::exit(lint_plain_case(&args[2])),
         Some("split") => std::process::exit(split_case(&args[2], &args[3])),
         Some("cache") => std::process::exit(cache_case(&args[2..])),
+        Some("locality") => std::process::exit(locality_case(&args[2], &args[3])),
+        Some("config") => std::process::exit(config_case(&args[2..])),
         Some("remove-overlaps-raw") => {
             // prints the identity tags of the surviving lints, in output order (translation validation of mirsym)
             let mut v = parse_lints(args.get(2).map(|s| s.as_str()).unwrap_or(""));
@@ -201,6 +203,129 @@ fn cache_case(args: &[String]) -> i32 {
     if got.iter().any(|l| l.span.start > l.span.end || l.span.end > len2) {
         println!("VIOLATED: a lint span lies outside the text");
         bad = 1;
+    }
+    bad
+}
+
+/// C12 (lexing kernel): the tokens of a paragraph do not depend on the text after the paragraph break.
+fn locality_case(p: &str, d: &str) -> i32 {
+    use harper_core::parsers::{Parser, PlainEnglish};
+    let alone: Vec<char> = format!("{p}\n\n").chars().collect();
+    let both: Vec<char> = format!("{p}\n\n{d}").chars().collect();
+    let ta = PlainEnglish.parse(&alone);
+    let tb = PlainEnglish.parse(&both);
+    let plen = p.chars().count();
+    let key = |v: &Vec<harper_core::Token>| {
+        v.iter().filter(|t| t.span.start < plen).map(|t| (t.span.start, t.span.end, format!("{:?}", t.kind))).collect::<Vec<_>>()
+    };
+    println!("paragraph alone: {:?}", key(&ta));
+    println!("with {:?} after the break: {:?}", d, key(&tb));
+    if key(&ta) != key(&tb) {
+        println!("VIOLATED: the paragraph is tokenised differently when other text follows the paragraph break");
+        return 1;
+    }
+    0
+}
+
+/// C11 kernel: LintGroupConfig through its public API. args: scenario cfg0 [cfg1] [key] [value]; cfg = "A=true,B=none" (absent keys omitted)
+fn config_case(args: &[String]) -> i32 {
+    use harper_core::linting::LintGroupConfig;
+    use std::hash::{DefaultHasher, Hash, Hasher};
+    fn build(spec: &str) -> LintGroupConfig {
+        let mut c = LintGroupConfig::default();
+        let mut nones = vec![];
+        for part in spec.split(',').filter(|s| !s.is_empty()) {
+            let (k, v) = part.split_once('=').unwrap();
+            match v {
+                "true" => c.set_rule_enabled(k, true),
+                "false" => c.set_rule_enabled(k, false),
+                "none" => nones.push(k.to_string()),
+                _ => {}
+            }
+        }
+        if !nones.is_empty() {
+            // a present-but-None entry can only be produced by clear(): build it separately and merge the explicit ones on top
+            let mut base = LintGroupConfig::default();
+            for k in &nones {
+                base.set_rule_enabled(k, true);
+            }
+            base.clear();
+            base.merge_from(&mut c);
+            return base;
+        }
+        c
+    }
+    let want_on = |spec: &str, k: &str| spec.split(',').any(|p| p == format!("{k}=true"));
+    let scenario = args[0].as_str();
+    let mut bad = 0;
+    match scenario {
+        "query" => {
+            let c = build(&args[1]);
+            for k in ["A", "B", "Z"] {
+                if c.is_rule_enabled(k) != want_on(&args[1], k) {
+                    println!("VIOLATED: is_rule_enabled({k}) = {} for {:?}", c.is_rule_enabled(k), args[1]);
+                    bad = 1;
+                }
+            }
+        }
+        "set" => {
+            let mut c = build(&args[1]);
+            let (k, v) = (args[2].as_str(), args[3] == "true");
+            c.set_rule_enabled(k, v);
+            for other in ["A", "B", "Z"] {
+                let want = if other == k { v } else { want_on(&args[1], other) };
+                if c.is_rule_enabled(other) != want {
+                    println!("VIOLATED: after set_rule_enabled({k}, {v}) rule {other} is {}", c.is_rule_enabled(other));
+                    bad = 1;
+                }
+            }
+            c.unset_rule_enabled(k);
+            if c.is_rule_enabled(k) {
+                println!("VIOLATED: unset_rule_enabled({k}) left the rule on");
+                bad = 1;
+            }
+        }
+        "merge" | "fill" => {
+            let mut a = build(&args[1]);
+            let mut b = build(&args[2]);
+            if scenario == "merge" {
+                a.merge_from(&mut b);
+                for k in ["A", "B"] {
+                    let explicit = args[2].split(',').find(|p| p.starts_with(&format!("{k}=")) && !p.ends_with("none"));
+                    let want = match explicit { Some(p) => p.ends_with("true"), None => want_on(&args[1], k) };
+                    if a.is_rule_enabled(k) != want {
+                        println!("VIOLATED: after merge_from rule {k} is {} (expected {want})", a.is_rule_enabled(k));
+                        bad = 1;
+                    }
+                    if b.is_rule_enabled(k) {
+                        println!("VIOLATED: merge_from left rule {k} on in the other configuration");
+                        bad = 1;
+                    }
+                }
+            } else {
+                // the curated table cannot be stubbed natively: the user's explicit choices must survive fill_with_curated
+                a.fill_with_curated();
+                for k in ["A", "B"] {
+                    if let Some(p) = args[1].split(',').find(|p| p.starts_with(&format!("{k}=")) && !p.ends_with("none")) {
+                        if a.is_rule_enabled(k) != p.ends_with("true") {
+                            println!("VIOLATED: fill_with_curated overrode the user's choice for {k}");
+                            bad = 1;
+                        }
+                    }
+                }
+            }
+        }
+        "hash" => {
+            let (a, b) = (build(&args[1]), build(&args[2]));
+            let h = |c: &LintGroupConfig| { let mut s = DefaultHasher::new(); c.hash(&mut s); s.finish() };
+            let differ = ["A", "B"].iter().any(|k| a.is_rule_enabled(k) != b.is_rule_enabled(k));
+            println!("hash({:?}) = {:x}, hash({:?}) = {:x}", args[1], h(&a), args[2], h(&b));
+            if differ && h(&a) == h(&b) {
+                println!("VIOLATED: configurations that enable different rules hash identically");
+                bad = 1;
+            }
+        }
+        _ => return 2,
     }
     bad
 }
